@@ -1171,8 +1171,9 @@ class StyleProcessors:
       )
       
       if position.v_edge is styles.PositionType.VEdge.bottom:
+        # the offset is measured between the bottom edges of the region and of the root container
         v_offset = styles.LengthType(
-          value=100 - v_offset.value,
+          value=100 - extent.height.value - v_offset.value,
           units=v_offset.units
         )
 
@@ -1185,8 +1186,9 @@ class StyleProcessors:
       )
 
       if position.h_edge is styles.PositionType.HEdge.right:
+        # the offset is measured between the right edges of the region and of the root container
         h_offset = styles.LengthType(
-          value=100 - h_offset.value,
+          value=100 - extent.width.value - h_offset.value,
           units=h_offset.units
         )
 
